@@ -143,7 +143,7 @@ func (e *Engine) VerifyFunction(fn *ssa.Function) (res *FuncResult) {
 	if ct != nil && !strings.Contains(ct.Name, "%") {
 		// an anchored clause that matched nothing is a dead letter: report it instead of passing silently
 		for _, a := range ct.Asserts {
-			if fx.anchorHits[a.Anchor] == 0 {
+			if fx.anchorHits[a.Anchor] == 0 && !a.Wild {
 				fx.obls = append(fx.obls, &Obligation{Name: fx.oblName("assert", a.Clause.Label+"@unmatched-anchor"), Class: "assert", Func: e.shortName(fn),
 					Status: "failed", Solver: "govc-structural", Detail: "anchor @" + a.Anchor + " matches no call / map operation of the function"})
 			}
